@@ -137,6 +137,20 @@ CLAIMED["C18"] = dict(
          "the preparation/finalisation text and received the same repairs but is not separately verified.",
 )
 
+CLAIMED["C16"] = dict(
+    text="Proof: add_implicit_hydrogens on a centre of symbolic group 13-16, formal charge, spin and bond types with 0..3 neighbours "
+         "adds exactly the hinted number or max(0, 4-|4-(ve-fc-|spin|)|-ceil(bonded valence)) hydrogens for every value, only hydrogens, "
+         "each bonded once to the centre, leaving existing atoms, bonds, coordinates and charges unchanged; a lemma shows a second call "
+         "adds nothing; over the reals each new H lies at (constant within 1e-3 of 1) x (sum of covalent radii) from the centre and every "
+         "division is defined outside degenerate geometries (neighbour centroid on the centre, collinear neighbours).",
+    ref="DESIGN.md section 3 C16",
+    technique="contract-based deductive verification: VCs from the real AST by pyvc, z3 (integer/real arithmetic) + sympy (length identities)",
+    note="Element tables (group, covalent radius) uninterpreted with positive radii; mean_plane (SVD) assumed to return a unit vector; "
+         "rotation_matrix_from_vectors through its C11 contract; bond types restricted to Single/Double/Triple/Aromatic/Dummy in the "
+         "count unit; NOT decided: bond length for 2 hydrogens on a centre with 1 or 3 neighbours, the 'pointing away' sign clause "
+         "(both only checked numerically by the replay harness).",
+)
+
 NOT_APPLICABLE = {
 }
 
